@@ -145,13 +145,14 @@ theorem recorded_wf {F : Facts} (hwf : WF F = true) {d c : String} (hc : charOf 
     exact ⟨kind, ks, caught, hm, hdsp, this.1, this.2⟩
   · contradiction
 
-/-- the character exempted from `arg_val` in the loop is the call branch's, and only it -/
+/-- the characters exempted from `arg_val` in the loop are the call branch's, and only they -/
 theorem callChar_wf {F : Facts} (hwf : WF F = true) {c ks : String} {caught : List String}
     (hd : dispatchOf F c = some (ks, caught)) :
-    (Kind.ofString ks == .call) = (c == callChar) := by
+    (Kind.ofString ks == .call) = F.argExempt.contains c := by
   simp only [WF, Bool.and_eq_true] at hwf
   have hcc := hwf.1.1.1.2
-  simp only [callCharOk, List.all_eq_true] at hcc
+  simp only [callCharOk, Bool.and_eq_true, List.all_eq_true] at hcc
+  have hcc := hcc.1.2
   simp only [dispatchOf, Option.map_eq_some_iff] at hd
   obtain ⟨⟨c', ks', caught'⟩, hfind, heq⟩ := hd
   simp only [Prod.mk.injEq] at heq
@@ -189,7 +190,7 @@ theorem stepOp_eq (F : Facts) (hwf : WF F = true) (prim : Prim V S) (hcallee : P
   have hcc := callChar_wf hwf hd
   rw [hk] at hcc
   unfold stepOp
-  by_cases hch : (c == callChar) = true
+  by_cases hch : F.argExempt.contains c = true
   · have hkc : kind = .call := by rw [hch] at hcc; simpa using hcc
     subst hkc
     simp only [hch, if_true, hd, hk, hcallee s target cur]
